@@ -18,9 +18,11 @@ LsmLV1 == { [Base EXCEPT !.strat = "lv", !.memsize = 1, !.maxlev = 3, !.base = 4
 LsmFIFO == { [Base EXCEPT !.strat = "fifo", !.memsize = ms, !.thr = 1, !.maxlev = 3] : ms \in {1, 2} }
 \* a bloom filter false positive: the table {2} answers "maybe" for key 1 (multi-segment get)
 LsmFP == { [Base EXCEPT !.memsize = 1, !.maxlev = 3, !.fp = {<<{2}, 1>>, <<{1}, 2>>}] }
+P(th, key, val) == [th |-> th, k |-> "put", key |-> key, hi |-> 0, val |-> val]
 \* quick-tier unions
 LsmSTq == { [Base EXCEPT !.memsize = 1, !.maxlev = 2], [Base EXCEPT !.memsize = 2, !.maxlev = 3] }
 LsmLFq == LsmLV1 \cup { [Base EXCEPT !.strat = "fifo", !.memsize = 1, !.thr = 1, !.maxlev = 3] }
+QuickAll == LsmSTq \cup LsmLFq \cup { [Base EXCEPT !.engine = "btree", !.order = 3], [Base EXCEPT !.engine = "kv"] }
 BTree3 == { [Base EXCEPT !.engine = "btree", !.order = 3] }
 BTree4 == { [Base EXCEPT !.engine = "btree", !.order = 4] }
 KV == { [Base EXCEPT !.engine = "kv"] }
@@ -48,6 +50,8 @@ T01 == <<{0, 1}, {0, 1}>>
 T012 == <<{0, 1, 2}, {0, 1, 2}>>
 T01x3 == <<{0, 1}, {0, 1}, {0, 1}>>
 T0_6 == <<{0}, {6}>>
+T0_01 == <<{0}, {0, 1}>>
+ConcPrefix == { << <<P(0, 2, 101), P(0, 1, 102)>>, <<>> >> }
 T0_04 == <<{0}, {0, 4}>>
 T0_0_01 == <<{0}, {0}, {0, 1}>>
 \* targeted envelopes for the sensitivity runs
@@ -57,7 +61,6 @@ KPG_P == <<{"put", "get"}, {"put"}>>
 NoPrefix == {}
 \* reader_iter_skips_on_shrink needs four SSTables in L0 while a compaction of the first two is in flight:
 \* three writers (memtable of 2, write latency 8) are scripted, the reader (client 4) is explored.
-P(th, key, val) == [th |-> th, k |-> "put", key |-> key, hi |-> 0, val |-> val]
 IterPrefix == { << <<P(0, 1, 101), P(0, 2, 102), P(0, 1, 103), P(0, 2, 104)>>,
                    <<P(13, 3, 201), P(0, 1, 202)>>, <<P(16, 1, 301), P(0, 2, 302)>>, <<>> >> }
 LsmIter == { [Base EXCEPT !.memsize = 2, !.maxlev = 2, !.W = 8] }
